@@ -253,6 +253,35 @@ func (gen *generator) addGlobalEntitiesToModule() {
 			panic(fmt.Errorf("support for global %T not yet implemented", v))
 		}
 	}
+	// Unnamed global variables, aliases, ifuncs and functions are numbered in
+	// order of occurrence in the input, whereas the printer numbers them group
+	// by group (see ir.Module.AssignGlobalIDs). Renumber them in the order of
+	// the printer; uses refer to the definitions themselves, not to their IDs.
+	id := int64(0)
+	for _, def := range gen.m.Globals {
+		if def.IsUnnamed() {
+			def.SetID(id)
+			id++
+		}
+	}
+	for _, def := range gen.m.Aliases {
+		if def.IsUnnamed() {
+			def.SetID(id)
+			id++
+		}
+	}
+	for _, def := range gen.m.IFuncs {
+		if def.IsUnnamed() {
+			def.SetID(id)
+			id++
+		}
+	}
+	for _, def := range gen.m.Funcs {
+		if def.IsUnnamed() {
+			def.SetID(id)
+			id++
+		}
+	}
 }
 
 // addAttrGroupDefsToModule adds IR attribute group definitions to the IR module
